@@ -66,6 +66,13 @@ class TreeLayout:
         self.reset(node.left)
         self.reset(node.right)
 
+    @staticmethod
+    def _level(node: Optional[BinaryTreeNode]) -> float:
+        """The level measure() recorded for an extreme node, or -1 for no node"""
+        if node is None or node.y is None:
+            return -1
+        return node.y
+
     def measure(
         self,
         node: Optional[BinaryTreeNode] = None,
@@ -112,12 +119,6 @@ class TreeLayout:
             extremes.right = extremes.left = node
             return self
 
-        # if only a single child, assign the next available offset and return.
-        if not node.right or not node.left:
-            node.offset = min_separation
-            extremes.right = extremes.left = node.left if node.left else node.right
-            return self
-
         # Set the current separation to the minimum separation for the root of the
         # subtree.
         current_separation = min_separation
@@ -160,8 +161,8 @@ class TreeLayout:
         right_offset_sum += node.offset
 
         # Update right and left extremes
-        right_left_level = getattr(right_extremes.left, "level", -1)
-        left_left_level = getattr(left_extremes.left, "level", -1)
+        right_left_level = self._level(right_extremes.left)
+        left_left_level = self._level(left_extremes.left)
         if right_left_level > left_left_level or not node.left:
             extremes.left = right_extremes.left
             if extremes.left:
@@ -174,8 +175,8 @@ class TreeLayout:
                 assert extremes.left.offset is not None
                 extremes.left.offset -= node.offset
 
-        left_right_level = getattr(left_extremes.right, "level", -1)
-        right_right_level = getattr(right_extremes.right, "level", -1)
+        left_right_level = self._level(left_extremes.right)
+        right_right_level = self._level(right_extremes.right)
         if left_right_level > right_right_level or not node.right:
             extremes.right = left_extremes.right
             if extremes.right:
